@@ -139,6 +139,9 @@ def expr_ast(e):
         return ast.Function(e['f'], [ast.Asterisk()] if is_star(e['a']) else [expr_ast(e['a'])])
     if k == 'ph':
         return ast.Placeholder(e['n'])
+    if k == 'insub':
+        from harness import selectq
+        return (ast.NotIn if e['neg'] else ast.In)(expr_ast(e['a']), selectq.query_ast(e['q'], e.get('table', 'g')))
     raise ValueError(k)
 
 
@@ -194,6 +197,9 @@ def expr_text(e):
         return '%s(%s)' % (e['f'], ', '.join(expr_text(x) for x in e['args']))
     if k == 'agg':
         return '%s(%s)' % (e['f'], '*' if is_star(e['a']) else expr_text(e['a']))
+    if k == 'insub':
+        from harness import selectq
+        return '(%s %s (%s))' % (expr_text(e['a']), 'NOT IN' if e['neg'] else 'IN', selectq.query_text(e['q'], e.get('table', 'g')))
     raise ValueError(k)
 
 
@@ -216,6 +222,9 @@ def expr_key(e):
         return '%s(%s)' % (e['f'], ','.join(expr_key(x) for x in e['args']))
     if k == 'agg':
         return '%s[%s]' % (e['f'], '*' if is_star(e['a']) else expr_key(e['a']))
+    if k == 'insub':
+        from harness import selectq
+        return '%s(%s,{%s})' % ('notin' if e['neg'] else 'in', expr_key(e['a']), selectq.q_key(e['q']))
     return k
 
 
